@@ -48,12 +48,23 @@ pub struct Lexer {
 impl Lexer {
     /// Create a new lexer from a string.
     pub fn new<S: Into<String>>(source: S, id: Uuid) -> Lexer {
+        let source: Vec<char> = source.into().chars().collect();
+        // `row`/`col` describe the character at `pos` the way `consume_char`
+        // leaves them after every step: a newline character counts as column
+        // 0 of the row it starts, and the first character of a row has
+        // column 1. Start in that same state; starting at (0, 0) reported
+        // every token of the first line one column too far left, and every
+        // line of a file that begins with a newline one row too high.
+        let (row, col) = match source.first() {
+            Some('\n') => (1, 0),
+            _ => (0, 1),
+        };
         Lexer {
-            source: source.into().chars().collect(),
+            source,
             source_id: id,
             pos: 0,
-            row: 0,
-            col: 0,
+            row,
+            col,
         }
     }
 
